@@ -286,6 +286,23 @@ def canon_strings(e: ast.AST) -> ast.AST:
     return T().visit(copy.deepcopy(e))
 
 
+def canon_collections(e: ast.AST) -> ast.AST:
+    """One spelling for 'the elements of': `set(x)`, `frozenset(x)`, `list(x)`, `tuple(x)`, `sorted(x)` with a single
+    argument are x, and `x.keys()` is x.  For rules that ask *which elements* are computed / iterated, not in which
+    container type or order."""
+
+    class T(ast.NodeTransformer):
+        def visit_Call(self, node):
+            self.generic_visit(node)
+            if isinstance(node.func, ast.Name) and node.func.id in ("set", "frozenset", "list", "tuple", "sorted") and len(node.args) == 1 and not node.keywords and not isinstance(node.args[0], ast.Starred):
+                return node.args[0]
+            if isinstance(node.func, ast.Attribute) and node.func.attr == "keys" and not node.args and not node.keywords:
+                return node.func.value
+            return node
+
+    return T().visit(copy.deepcopy(e))
+
+
 def single_defs(func: ast.AST) -> Dict[str, ast.AST]:
     """local name -> defining expression, for locals bound exactly once in the function by a plain assignment
     (`x = e`, `x: T = e`, `(x := e)`); parameters, loop / with / except / unpacking targets are never expanded."""
